@@ -375,7 +375,7 @@ impl Nodes {
         for i in 0..3 {
             let fresh = boot_node(ctx, &self.cons, i, self.generation)?;
             let old = std::mem::replace(&mut self.n[i], fresh);
-            old.node.shutdown();
+            old.node.destroy();
             self.n[i].clock = clock;
         }
         self.since_boot.clear();
@@ -751,7 +751,7 @@ pub fn run(ctx: &Ctx) -> Report {
     // the maturity family (one worker)
     if report.cap_hit.is_none() && report.machinery_errors.is_empty() && maturity_worker {
         for d in nodes.n.drain(..) {
-            d.node.shutdown();
+            d.node.destroy();
         }
         match Nodes::new_maturity(ctx) {
             Ok(mut mn) => {
